@@ -311,6 +311,11 @@ func (e *Exec) mapGet(s *State, mt *types.Map, m *Node, k *Node) Value {
 		x := Select(Select(h, m), k)
 		if !x.bound {
 			e.constrainLeaf(s, x, li.T, li.Sort)
+		} else if li.T != nil {
+			switch li.T.Underlying().(type) {
+			case *types.Pointer, *types.Map, *types.Chan:
+				e.assumeMapRefsAllocated(s, h, ks)
+			}
 		}
 		return x
 	})
@@ -489,4 +494,35 @@ func (e *Exec) packKey(sv *StructV, kt types.Type) *Node {
 		}
 	}
 	return k
+}
+
+// assumeMapRefsAllocated: a map-value heap read under a quantifier. Every reference held in a map is
+// an allocated object (or nil); stated for the root constants of the heap term (values stored by
+// this activation carry the fact individually), with the current allocation bound (monotone).
+func (e *Exec) assumeMapRefsAllocated(s *State, h *Node, keySort string) {
+	seen := map[int]bool{}
+	var roots []*Node
+	var rec func(n *Node)
+	rec = func(n *Node) {
+		if seen[n.id] {
+			return
+		}
+		seen[n.id] = true
+		switch {
+		case n.Op == "store" && len(n.Args) == 3:
+			rec(n.Args[0])
+		case n.Op == "ite" && len(n.Args) == 3:
+			rec(n.Args[1])
+			rec(n.Args[2])
+		case len(n.Args) == 0:
+			roots = append(roots, n)
+		}
+	}
+	rec(h)
+	for _, r := range roots {
+		m := BoundVar("m!wf", RefSort)
+		k := BoundVar("k!wf", keySort)
+		x := Select(Select(r, m), k)
+		s.assume(Forall([]*Node{m, k}, And(App("<=", "Bool", IntLit(0), x), App("<", "Bool", x, e.allocTerm(s)))))
+	}
 }
